@@ -193,7 +193,11 @@ func HarnessE3() {
 		return
 	}
 	verifAssert(len(dec) <= MaxDecodedLen(text), "E3.maxdecodedlen")
-	if len(line) > 0 && !(crlf == 0 && line[len(line)-1] == '\r') {
+	// Perl compatibility is claimed for text the encoder can produce: a length character
+	// outside the alphabet (an over-long length byte >= 'a') is invalid text, for which the
+	// statement demands totality only - Perl's unpack stops at such a line, this decoder
+	// takes the un-masked count
+	if len(line) > 0 && line[0] <= 96 && !(crlf == 0 && line[len(line)-1] == '\r') {
 		want := refUnpack(append(append([]byte{}, line...), '\n'))
 		if verifCanary() && len(want) > 0 {
 			want[0] ^= 4
@@ -303,12 +307,24 @@ func HarnessE3Len() {
 	keep := append([]byte{}, line...)
 	dec, err := AppendDecode(nil, line)
 	verifAssert(sameBytes(line, keep), "E3N.src-unchanged")
-	verifAssert(err == nil, "E3N.wellformed-line-accepted")
+	// lines the encoder can produce (up to 'M' = 45 bytes, and the zero-length line) must be
+	// accepted; longer length characters are Perl-decodable up to '_' and invalid beyond: the
+	// decoder may accept or reject those, but must not panic, and what it accepts inside the
+	// alphabet must be what Perl yields
+	if lb <= 'M' || lb == '`' {
+		verifAssert(err == nil, "E3N.wellformed-line-accepted")
+	}
 	if err != nil {
+		checkDecodeError(err, 1, line, "E3N.err")
+		verifReach("E3N.rejected-overlong")
+		return
+	}
+	verifAssert(len(dec) <= MaxDecodedLen(line), "E3N.maxdecodedlen")
+	if lb > 96 {
+		verifReach("E3N.accepted-overlong")
 		return
 	}
 	verifAssert(len(dec) == nDec, "E3N.decoded-length-is-what-the-length-character-says")
-	verifAssert(len(dec) <= MaxDecodedLen(line), "E3N.maxdecodedlen")
 	// six-bit reference for the data part
 	want := []byte{}
 	for g := 0; g < k; g++ {
